@@ -172,6 +172,44 @@ def extract(tree):
     # the "already registered?" test must be the ABSENCE of the key: entries hold `false` between mark phases
     mg = re.search(r"Janet\s+(\w+)\s*=\s*janet_table_get\s*\(\s*&janet_vm\.threaded_abstracts\s*,\s*\*out\s*\)\s*;", ub)
     flags["unmarshalKnownTestIsAbsent"] = bool(mg and re.search(r"if\s*\(\s*janet_checktype\s*\(\s*%s\s*,\s*JANET_NIL\s*\)\s*\)\s*\{[^}]*janet_table_put" % mg.group(1), ub, re.S))
+    # ---- run queue / wait discipline (Session 3: Model.lean `take`, `runTask`, `resume`, `handle`)
+    popf = _corefn_body(ev, "cfun_channel_pop")
+    flags["takeSchedulesSelf"] = bool(re.search(
+        r"if\s*\(\s*janet_channel_pop\s*\(\s*channel\s*,\s*&item\s*,\s*0\s*\)\s*\)\s*\{\s*janet_schedule\s*\(\s*janet_vm\.root_fiber\s*,\s*item\s*\)\s*;\s*\}\s*janet_await\s*\(\s*\)\s*;", popf))
+    pushf = _corefn_body(ev, "cfun_channel_push")
+    flags["giveAwaitsWhenParked"] = bool(re.search(
+        r"if\s*\(\s*janet_channel_push\s*\(\s*channel\s*,\s*argv\[1\]\s*,\s*0\s*\)\s*\)\s*\{\s*janet_await\s*\(\s*\)\s*;\s*\}", pushf))
+    sg = func_body(ev, "janet_schedule_general")
+    flags["scheduleBumpsPushesTail"] = bool(
+        re.search(r"JanetTask\s+t\s*=\s*\{\s*fiber\s*,\s*value\s*,\s*sig\s*,\s*\+\+fiber->sched_id\s*\}\s*;", sg)
+        and re.search(r"if\s*\(\s*soon\s*\)\s*\{\s*janet_q_push_head\s*\(\s*&janet_vm\.spawn\s*,\s*&t\s*,[^;]*;\s*\}\s*else\s*\{\s*janet_q_push\s*\(\s*&janet_vm\.spawn\s*,\s*&t\s*,", sg)
+        and re.search(r"janet_schedule_general\s*\(\s*fiber\s*,\s*value\s*,\s*sig\s*,\s*0\s*\)", func_body(ev, "janet_schedule_signal"))
+        and re.search(r"janet_schedule_signal\s*\(\s*fiber\s*,\s*value\s*,\s*JANET_SIGNAL_OK\s*\)", func_body(ev, "janet_schedule")))
+    l1 = func_body(ev, "janet_loop1")
+    ipop = l1.find("janet_q_pop(&janet_vm.spawn, &task, sizeof(task))")
+    mchk = re.search(r"if\s*\(\s*task\.expected_sched_id\s*!=\s*task\.fiber->sched_id\s*\)\s*continue\s*;", l1)
+    icont = l1.find("janet_continue_signal(task.fiber")
+    flags["loopPopsHeadChecksExpected"] = bool(ipop >= 0 and mchk and ipop < mchk.start() < icont
+                                               and re.search(r"while\s*\(\s*janet_vm\.spawn\.head\s*!=\s*janet_vm\.spawn\.tail\s*\)", l1))
+    # janet_loop1 bumps the fiber's generation when it resumes a task: after the filter, before janet_continue_signal
+    mb = re.search(r"task\.fiber->sched_id\s*\+\+\s*;|\+\+\s*task\.fiber->sched_id\s*;", l1)
+    flags["loopBumpsSchedAtResume"] = bool(mb and mchk and mchk.end() <= mb.start() < icont)
+    if mb and not flags["loopBumpsSchedAtResume"]:
+        raise ExtractError("janet_loop1: `task.fiber->sched_id++` is not between the expected_sched_id filter and janet_continue_signal")
+    # the pipe is read ONE event per read(), in order, until it is empty (edge-triggered registration: what is left is not reported again)
+    flags["selfpipeOneEventPerReadUntilEmpty"] = bool(
+        re.search(r"JanetSelfPipeEvent\s+response\s*;", hs)
+        and re.search(r"status\s*=\s*read\s*\(\s*janet_vm\.selfpipe\[0\]\s*,\s*&response\s*,\s*sizeof\s*\(\s*response\s*\)\s*\)", hs)
+        and re.search(r"if\s*\(\s*status\s*>\s*0\s*\)\s*\{.*response\.cb\s*\(\s*response\.msg\s*\).*goto\s+recur\s*;", hs, re.S)
+        and re.search(r"recur\s*:", hs))
+    # a pending entry carries the waiting fiber's CURRENT sched_id (ticket invariant of Thread/Order.lean)
+    flags["pendingCarriesCurrentSchedId"] = bool(
+        re.search(r"pending\.fiber\s*=\s*janet_vm\.root_fiber\s*,\s*pending\.sched_id\s*=\s*janet_vm\.root_fiber->sched_id\s*;", pop)
+        and re.search(r"pending\.fiber\s*=\s*janet_vm\.root_fiber\s*,\s*pending\.sched_id\s*=\s*janet_vm\.root_fiber->sched_id\s*,", push))
+    # the accepting branch of the callback schedules the fiber with the unpacked item (READ) / the channel (WRITE)
+    flags["cbSchedulesFiber"] = bool(
+        re.search(r"mode\s*==\s*JANET_CP_MODE_READ\s*\)\s*\{\s*janet_assert\s*\(\s*!\s*janet_chan_unpack\s*\(\s*channel\s*,\s*&x\s*,\s*0\s*\)[^;]*;\s*janet_schedule\s*\(\s*fiber\s*,\s*x\s*\)\s*;", cb)
+        and re.search(r"mode\s*==\s*JANET_CP_MODE_WRITE\s*\)\s*\{\s*janet_schedule\s*\(\s*fiber\s*,\s*janet_wrap_channel\s*\(\s*channel\s*\)\s*\)\s*;", cb))
     sw = func_body(gc, "janet_sweep")
     flags["sweepDecrefFrees"] = bool(re.search(r"if\s*\(\s*!\s*janet_truthy\s*\(\s*items\[i\]\.value\s*\)\s*\)\s*\{[^}]*if\s*\(\s*0\s*==\s*janet_abstract_decref\s*\(\s*abst\s*\)\s*\)", sw, re.S)
                                      and "janet_free(janet_abstract_head(abst))" in sw)
